@@ -43,8 +43,9 @@ def linear(u, name, din, dout, bias=False):
 def _ctx_unit(u, cls, state_keys, E_extra=0, node_key="current_node", squeeze_min2=False, extra_attrs=None, fwd=None):
     N = u.dim("N")
     E = u.dim("E", 2)    # embedding width >= 2 (a width of 1 would be dropped by the `.squeeze()` calls as well)
-    proj = linear(u, "project_context", E + E_extra if isinstance(E_extra, int) else E_extra, E)
-    attrs = dict(embed_dim=E, project_context=proj)
+    attrs = dict(embed_dim=E)
+    if isinstance(E_extra, int):
+        attrs["project_context"] = linear(u, "project_context", E + E_extra, E)
     if extra_attrs:
         attrs.update(extra_attrs(u, E))
     obj = u.obj(CTX, cls, **attrs)
@@ -563,3 +564,39 @@ def _(u):
         u.prove("mha.out.projection-of-own-merged-heads", AND(zint(r_out.ns[0]) == zint(E), IMPL(AND(d >= 0, d < E),
                 r_out.body((b, n, e), (d,)) == Wo(zint(e), d) * out(zint(b), d / zint(G), zint(n), d % zint(G)))))
         u.prove("mha.out.value", y.at(b, n, e) == r_out.app((b, n, e)))
+
+
+@unit("context.tsp.rowlocal", file=CTX, func="TSPContext.forward", props=("C14",))
+def _(u):
+    # after the first step: first and current node embeddings of the row's OWN instance; at the first step: a placeholder
+    # that does not depend on any instance. (Which branch is taken is read from row 0's step counter: all rows of a TSP batch
+    # are at the same step.)
+    N = u.dim("N")
+    E = u.dim("E", 2)
+    proj = linear(u, "project_context", 2 * E, E)
+    Wp = u.tensor("W_placeholder", (2 * E,), "f")
+    obj = u.obj(CTX, "TSPContext", embed_dim=E, project_context=proj, W_placeholder=Wp)
+    step = u.scalar("step", "i")
+    u.requires(step >= 0)
+
+    def make_inputs(u, B):
+        return {"embeddings": u.tensor("embeddings", (B, N, E), "f"), "first_node": u.tensor("first_node", (B,), "i"),
+                "current_node": u.tensor("current_node", (B,), "i")}
+
+    def requires(u, ins, B):
+        return u.forall((B,), lambda b: AND(ins["first_node"].at(b) >= 0, ins["first_node"].at(b) < N, ins["current_node"].at(b) >= 0, ins["current_node"].at(b) < N))
+
+    def call(u, ins):
+        B = ins["embeddings"].shape[0]
+        td = SymTD({"first_node": ins["first_node"], "current_node": ins["current_node"], "i": ops.const_tensor((B, 1), "i", step)}, (B,))
+        return {"context": u.run(CTX, "TSPContext.forward", ins["embeddings"], td, selfobj=obj, record=False)}
+
+    rowlocal(u, "TSPContext", make_inputs, call, requires=requires, tags=("C14",))
+
+
+@unit("context.mtsp.rowlocal", file=CTX, func="EnvContext.forward", props=("C14",))
+def _(u):
+    u.inline((CTX, "MTSPContext._cur_node_embedding"), (CTX, "MTSPContext._state_embedding"), (CTX, "MTSPContext._distance_from_depot"))
+    _ctx_unit(u, "MTSPContext", {"num_agents": ((), "i"), "agent_idx": ((), "i"), "current_length": ((), "f"), "max_subtour_length": ((), "f"),
+                                "locs": (lambda N: (N, 2), "f")}, E_extra=lambda: None, squeeze_min2=True,
+              extra_attrs=lambda u, E: {"proj_dynamic_feats": linear(u, "proj_dynamic_feats", 4, E), "project_context": linear(u, "project_context2", 2 * E, E)})
